@@ -328,6 +328,30 @@ def ob_dejitter_after_reference_edit(timeout):
     return Ob("dejitter-after-reference-edit", F(*names), body, pre, fmode="real", timeout=timeout, funcs=FUNCS[:2] + ["PointTier.timestamps/deleteEntry"], bounds="interval tier k=1, point reference with 2 points: read timestamps; delete the first point; dejitter")
 
 
+def ob_dejitter_empty_reference(timeout):
+    """empty references are error cases: a praatio error (not a bare ValueError from min()),
+    operands untouched; a tier that has nothing to adjust is returned unchanged"""
+
+    def body(hi, s0, e0):
+        for refkind in ("interval", "point"):
+            ref = IntervalTier("r", [], 0.0, hi) if refkind == "interval" else PointTier("r", [], 0.0, hi)
+            for tier in (IntervalTier("t", [Interval(s0, e0, "x")], 0.0, hi), PointTier("p", [Point(s0, "x")], 0.0, hi)):
+                before = snap_tier(tier)
+                try:
+                    tier.dejitter(ref, 0.25)
+                except errors.PraatioException:
+                    if snap_tier(tier) != before:
+                        return "operand mutated"
+                    continue
+                return "a reference tier without entries was accepted"
+            for empty in (IntervalTier("t", [], 0.0, hi), PointTier("p", [], 0.0, hi)):
+                if len(empty.dejitter(ref, 0.25).entries) != 0:
+                    return "empty tier against an empty reference"
+        return True
+
+    return Ob("dejitter-empty-reference", F("hi", "s0", "e0"), body, lambda hi, s0, e0: ivs_wf_pre(0.0, hi, s0, e0) & (hi <= 512.0), fmode="real", timeout=timeout, funcs=FUNCS[:2], bounds="interval and point tiers (one entry, and none) against interval and point references without entries")
+
+
 def ob_morph_mismatch(timeout):
     def body(hi, s0, e0):
         one = IntervalTier("s", [Interval(s0, e0, "x")], 0.0, hi)
@@ -358,6 +382,7 @@ def obligations(tier):
         obs.append(ob_morph(2, "none", ["x", ""], 120))
         obs.append(ob_morph(2, "nothing", ["x", "y"], 120))
         obs.append(ob_morph_mismatch(30))
+        obs.append(ob_dejitter_empty_reference(60))
         obs.append(ob_dejitter_after_reference_edit(400))
     else:
         obs.append(ob_dejitter_after_reference_edit(2400))
@@ -378,6 +403,7 @@ def obligations(tier):
         obs.append(ob_morph(2, "none", ["x", ""], 600))
         obs.append(ob_morph(3, "all", ["", "y", ""], 600))
         obs.append(ob_morph_mismatch(30))
+        obs.append(ob_dejitter_empty_reference(60))
     from harness import fp_kernels
 
     obs += fp_kernels.c14_obligations(tier)
